@@ -123,6 +123,34 @@ def recipes(bct):
         x[2, 1] += 3
         add('nbs_bct', 'unpaired', lambda seed, x=x, y=y: bct.nbs_bct(x.copy(), y.copy(), 1.5, k=8, seed=seed))
         add('nbs_bct', 'paired', lambda seed, x=x, y=y: bct.nbs_bct(x.copy(), y[:, :, :4].copy(), 1.0, k=8, paired=True, seed=seed))
+    # degree sequences of tiny dense digraphs: the stub-matching repair often runs into dead ends (its rare paths)
+    rsd = np.random.RandomState(7)
+    seqs = []
+    for t in range(60):
+        nn = int(rsd.randint(4, 8))
+        Ad = (rsd.rand(nn, nn) < rsd.choice([.5, .65, .8]))
+        np.fill_diagonal(Ad, False)
+        if Ad.any():
+            seqs.append((Ad.sum(0).astype(int), Ad.sum(1).astype(int)))
+
+    def one_degfixed(seed, i, o):
+        try:
+            return np.asarray(bct.makerandCIJdegreesfixed(i.copy(), o.copy(), seed=seed))
+        except bct.BCTParamError:
+            return np.array([-1.0])     # gave up: a legitimate, reproducible outcome
+    for qi, (i, o) in enumerate(seqs[:40]):
+        add('makerandCIJdegreesfixed', 'tiny_dense_%d' % qi, lambda seed, i=i, o=o: one_degfixed(seed, i, o))
+    # a "frozen" sign pattern: all negative weights in one row (no sign-preserving swap exists)
+    for nn in (6, 8):
+        Wf = np.abs(np.random.RandomState(nn).randn(nn, nn)) + .1
+        np.fill_diagonal(Wf, 0)
+        Wf[nn - 3, [1, nn - 4, nn - 1]] *= -1
+        add('null_model_dir_sign', 'frozen_pattern', lambda seed, Wf=Wf: bct.null_model_dir_sign(Wf.copy(), 5, .5, seed=seed))
+        add('randmio_dir_signed', 'frozen_pattern', lambda seed, Wf=Wf: bct.randmio_dir_signed(Wf.copy(), 3, seed=seed))
+        Wu = np.triu(Wf, 1)
+        Wu = Wu + Wu.T
+        Wu[0, 1] = Wu[1, 0] = -1.0
+        add('null_model_und_sign', 'frozen_pattern', lambda seed, Wu=Wu: bct.null_model_und_sign(Wu.copy(), 5, .5, seed=seed))
     big = 230
     rs = np.random.RandomState(99)
     Sb = rs.randn(big, big)
